@@ -137,6 +137,8 @@ def build(prop, info):
 SOURCE_TIES = {
     'integer codec': {'unit': 'SrcInt', 'module': 'HpackVerif.Props.Src', 'audit': 'AuditSrc.lean',
                       'users': {'C11', 'C04', 'C05', 'C02', 'C16'}},
+    'Huffman decoder': {'unit': 'SrcHuff', 'module': 'HpackVerif.Props.SrcHuff', 'audit': 'AuditSrcHuff.lean',
+                        'users': {'C13', 'C05', 'C04', 'C02'}},
     'header table': {'unit': 'SrcTable', 'module': 'HpackVerif.Props.SrcTable', 'audit': 'AuditSrcTable.lean',
                      'users': {'C06', 'C14', 'C10', 'C08', 'C19'}},
 }
@@ -950,7 +952,7 @@ def main():
             'trusted_base': [
                 'Lean 4 kernel (lake build); axioms used by the property theorems: ' + ', '.join(sorted({x for v in list(thms.values()) + list(shared.values()) for x in v})),
                 'tools/translate.py dumps the run-time tables/constants of the working tree into lean/HpackVerif/Generated (witnesses untrusted)',
-                'tools/py2lean.py + lean/HpackVerif/Src/Py.lean (source text of the integer codec / HeaderTable -> Lean; Props.Src / Props.SrcTable prove it equal to the model): ' + (info.get('source_tie') or {}).get('status', 'not used by this property'),
+                'tools/py2lean.py + lean/HpackVerif/Src/Py.lean (source text of the integer codec / decode_huffman / HeaderTable -> Lean; Props.Src / Props.SrcHuff / Props.SrcTable prove it equal to the model): ' + (info.get('source_tie') or {}).get('status', 'not used by this property'),
                 'hand-written L2 model lean/HpackVerif/Impl/* tied to the code by the correspondence streams of this run (%d operations, %d disagreements)' % (stats['ops'], len(disag)),
                 'L0 reading of RFC 7541 (lean/HpackVerif/RFC/*) and frozen Appendix A/B tables',
                 'CPython semantics of int/bytes/deque/dict as modelled (DESIGN.md 5.2)',
